@@ -19,7 +19,7 @@ type Mutant struct {
 }
 
 // Rules lists the rule names the generic mutators produce (explicit mut markers add their own).
-var Rules = []string{"operand", "operator", "argument", "arity", "return", "assignment", "condition", "branch", "iterator", "unknown-name", "loop-control", "duplicate", "global-init"}
+var Rules = []string{"operand", "operator", "argument", "arity", "return", "assignment", "condition", "branch", "iterator", "unknown-name", "loop-control", "duplicate", "global-init", "list-element", "index"}
 
 // WrongLits returns literals whose type is certainly incompatible with t (no any, no never, no
 // int/float confusion). nil means: nothing is certain (t mentions any/unknown).
@@ -246,6 +246,10 @@ func siteRepls(s Site) []repl {
 		}
 	case "asg":
 		wrong("assignment")
+	case "el":
+		wrong("list-element")
+	case "idx":
+		wrong("index")
 	case "cond":
 		for _, l := range []string{`1`, `"zz"`} {
 			out = append(out, repl{rule: "condition", desc: "condition := " + l, text: l})
@@ -293,7 +297,7 @@ func clip(s string, n int) string {
 }
 
 // needsSureType lists the kinds whose mutants depend on the type attribute.
-var needsSureType = map[string]bool{"opd": true, "bop": true, "aop": true, "arg": true, "ret": true, "tail": true, "asg": true, "br": true, "gin": true}
+var needsSureType = map[string]bool{"el": true, "idx": true, "opd": true, "bop": true, "aop": true, "arg": true, "ret": true, "tail": true, "asg": true, "br": true, "gin": true}
 
 // Mutants produces every single-fault mutant of a parsed program. dropped counts, per rule, the
 // mutants that were not produced because the site is declared unsure or its type mentions any.
@@ -338,6 +342,10 @@ func kindRule(kind string) string {
 		return "return"
 	case "asg":
 		return "assignment"
+	case "el":
+		return "list-element"
+	case "idx":
+		return "index"
 	case "br":
 		return "branch"
 	case "gin":
